@@ -17,6 +17,8 @@
 #include <atomic>
 #include <memory>
 #include <thread>
+#include <sys/wait.h>
+#include <unistd.h>
 
 using namespace vh;
 using namespace Spectra;
@@ -176,7 +178,18 @@ static Job make_job(int kind, Rng& r, int variant)
                     A(i, k) = A(k, i) = 0.01L * r.sym();
         }
     }
-    else if (variant == 1)
+    else if (variant == 2 && gen)
+    {
+        // [M C; 0 0]: exact zero rows, rank < ncv: range(A) is spanned exactly by V after a few steps, so the first attempt of expand_basis
+        // (A * random) fails and the fallback directions are drawn
+        const int rk = 3 + r.below(2);
+        for (int i = 0; i < rk; i++)
+            for (int k = 0; k < j.n; k++)
+                A(i, k) = r.sym();
+        j.ncv = std::min(j.n, std::max(j.ncv, rk + 5));
+        j.nev = std::min(j.nev, rk - 1);
+    }
+    else if (variant == 1 || variant == 2)
     {
         // few distinct eigenvalues / low rank: the Krylov sequence breaks down and expand_basis() runs at (almost) every step
         const int rk = 2 + r.below(2);
@@ -211,6 +224,40 @@ static Job make_job(int kind, Rng& r, int variant)
     return j;
 }
 
+// The same job run ALONE in a fresh child process (fork while no other thread is running): function-local statics, process-global
+// generators and other hidden state that is set by "whoever comes first" start from scratch there.  Returns false if the child failed.
+static bool run_isolated(const Job& j, JobResult& r)
+{
+    int fd[2];
+    if (pipe(fd) != 0)
+        return false;
+    fflush(out().f);
+    pid_t pid = fork();
+    if (pid < 0)
+        return false;
+    if (pid == 0)
+    {
+        close(fd[0]);
+        JobResult c = run_private(j);
+        ll buf[4] = {c.ev, c.res, c.nevents, c.info};
+        if (write(fd[1], buf, sizeof(buf)) != (ssize_t) sizeof(buf)) {}
+        _exit(0);
+    }
+    close(fd[1]);
+    ll buf[4] = {0, 0, 0, 0};
+    ssize_t got = read(fd[0], buf, sizeof(buf));
+    close(fd[0]);
+    int status = 0;
+    waitpid(pid, &status, 0);
+    if (got != (ssize_t) sizeof(buf))
+        return false;
+    r.ev = buf[0];
+    r.res = buf[1];
+    r.nevents = buf[2];
+    r.info = buf[3];
+    return true;
+}
+
 template <typename ScalarTag>
 void dispatch(const Desc& d)
 {
@@ -227,7 +274,7 @@ void dispatch(const Desc& d)
         const int T = tcounts[round % 4];
         const int shared = (round % 2);          // odd rounds: all threads share ONE const product wrapper
         const int kind = (round / 2) % 6;
-        const int variant = (round % 3 == 2) ? 1 : 0;
+        const int variant = (round % 3 == 2) ? 1 : ((round % 6 == 3) ? 2 : 0);
         std::vector<Job> jobs;
         if (shared)
         {
@@ -298,10 +345,16 @@ void dispatch(const Desc& d)
             seq[t] = run_private(jobs[t]);
         for (int t = 0; t < T; t++)
         {
+            // a third execution of a few jobs per round, alone in a fresh process
+            JobResult iso = seq[t];
+            int isok = -1;   // -1: not run in isolation
+            if (t < 3)
+                isok = run_isolated(jobs[t], iso) ? 1 : 0;
             Line l("MtJob");
             l.i("round", round).i("threads", T).i("shared", shared).i("kind", kind).i("variant", variant).i("job", t);
             l.i("seq_ev", seq[t].ev).i("con_ev", con[t].ev).i("seq_res", seq[t].res).i("con_res", con[t].res);
             l.i("seq_n", seq[t].nevents).i("con_n", con[t].nevents).i("info", seq[t].info);
+            l.i("iso", isok).i("iso_ev", iso.ev).i("iso_res", iso.res).i("iso_n", iso.nevents);
             out().put(l);
         }
     }
